@@ -303,3 +303,268 @@ def r_sibling_forward(F, V):
                 R.inst(key, "namesake bypassed", "violation", True, where(b))
     R.floor("wrappers with a namesake below", n, 40)
     return R
+
+
+# --------------------------------------------------------------------- R-TAG-CONSTS
+
+def _tag_consts(F):
+    out = {}
+    for p, b in F.bodies.items():
+        ops = []
+        for i, k, s in b.stmts():
+            if s["k"] == "assign":
+                ops += rv_operands(s["rv"])
+        for i, t in b.calls():
+            ops += t["args"]
+        for o in ops:
+            if o["k"] == "const" and o.get("t") == "control::tag::Tag" and o.get("val") is not None:
+                d = o.get("def", "")
+                if d.endswith("Tag::EMPTY"):
+                    out["EMPTY"] = int(o["val"])
+                elif d.endswith("Tag::DELETED"):
+                    out["DELETED"] = int(o["val"])
+        if len(out) == 2:
+            break
+    return out
+
+
+def _mask_test(b):
+    """a predicate body of the shape `(x.0 & C) ==/!= 0`: returns (C, 'Eq'|'Ne') or None"""
+    d = [x for x in b.defs.get(0, ()) if x[0] == "stmt" and x[3]["k"] == "assign"]
+    if len(d) != 1 or d[0][3]["rv"]["k"] != "binop" or d[0][3]["rv"]["op"] not in ("Eq", "Ne"):
+        return None
+    rv = d[0][3]["rv"]
+    zero = [o for o in (rv["a"], rv["b"]) if o["k"] == "const" and o.get("val") == 0]
+    other = [o for o in (rv["a"], rv["b"]) if o["k"] in ("copy", "move")]
+    if len(zero) != 1 or len(other) != 1:
+        return None
+    dd = b.single_def(other[0]["p"]["l"])
+    if not dd or dd[0] != "stmt" or dd[3]["rv"]["k"] != "binop" or dd[3]["rv"]["op"] != "BitAnd":
+        return None
+    cs = [o for o in (dd[3]["rv"]["a"], dd[3]["rv"]["b"]) if o["k"] == "const"]
+    if len(cs) != 1 or cs[0].get("val") is None:
+        return None
+    return int(cs[0]["val"]), rv["op"]
+
+
+def _fold(b, o, depth=0):
+    """constant value of an operand computed from constants only (None otherwise)"""
+    if depth > 12:
+        return None
+    if o["k"] == "const":
+        return int(o["val"]) if isinstance(o.get("val"), int) else None
+    if o["k"] not in ("copy", "move"):
+        return None
+    flds = [e for e in o["p"].get("proj", [])]
+    d = b.single_def(o["p"]["l"]) if not flds or (len(flds) == 1 and flds[0].get("name") == "0") else None
+    if d is None:
+        ds = b.defs.get(o["p"]["l"], ())
+        d = ds[0] if len(ds) == 1 else None
+    if not d or d[0] != "stmt" or d[3]["k"] != "assign":
+        return None
+    rv = d[3]["rv"]
+    if rv["k"] in ("use", "cast"):
+        return _fold(b, rv["op"], depth + 1)
+    if rv["k"] == "binop":
+        x, y = _fold(b, rv["a"], depth + 1), _fold(b, rv["b"], depth + 1)
+        if x is None or y is None:
+            return None
+        op = rv["op"].replace("WithOverflow", "").replace("Unchecked", "")
+        return {"Add": x + y, "Sub": x - y, "Mul": x * y, "BitAnd": x & y, "BitOr": x | y, "Shl": x << y, "Shr": x >> y}.get(op)
+    return None
+
+
+def r_tag_consts(F, V):
+    """Constant relations of the control-byte encoding: the masks tested by Tag::{is_full, is_special, special_is_empty}
+    classify the two special constants and every value Tag::full can produce the way the rest of the crate assumes
+    (a pure relation between compile-time constants; nothing is evaluated on run-time data)."""
+    R = Result("R-TAG-CONSTS", F.cfg)
+    tc = _tag_consts(F)
+    if len(tc) != 2:
+        R.undec("Tag::EMPTY / Tag::DELETED constants not found in any body")
+        return R
+    E_, D_ = tc["EMPTY"], tc["DELETED"]
+    fb = F.bodies.get("control::tag::Tag::full")
+    FM = None
+    shift = None
+    if fb is not None:
+        for i, k, s in fb.stmts():
+            if s["k"] == "assign" and s["rv"]["k"] == "binop" and s["rv"]["op"] == "BitAnd":
+                cs = [o for o in (s["rv"]["a"], s["rv"]["b"]) if o["k"] == "const" and isinstance(o.get("val"), int)]
+                if cs:
+                    FM = int(cs[0]["val"])
+            if s["k"] == "assign" and s["rv"]["k"] == "binop" and s["rv"]["op"].startswith("Shr"):
+                shift = _fold(fb, s["rv"]["b"])
+    n = 0
+    anchor = F.bodies.get("control::tag::Tag::is_full") or fb
+    checks = []
+    checks.append(("EMPTY != DELETED and both differ from every full tag (top bit)", E_ != D_ and E_ > 127 and D_ > 127, "EMPTY=%#x DELETED=%#x" % (E_, D_)))
+    for fn, want_op, why in (("is_full", "Eq", "a tag is full iff none of the mask bits is set"), ("is_special", "Ne", "a tag is special iff a mask bit is set")):
+        b = F.bodies.get("control::tag::Tag::" + fn)
+        mt = _mask_test(b) if b is not None else None
+        if mt is None:
+            R.inst("Tag::%s|shape" % fn, "predicate is not of the form (x & C) ==/!= 0: not judged", "exempt", False)
+            continue
+        C, op = mt
+        n += 1
+        checks.append(("Tag::%s: operator" % fn, op == want_op, "%s (%s)" % (op, why)))
+        checks.append(("Tag::%s: mask %#x classifies EMPTY and DELETED as special" % (fn, C), (E_ & C) != 0 and (D_ & C) != 0, "EMPTY&C=%#x DELETED&C=%#x" % (E_ & C, D_ & C)))
+        if FM is not None:
+            checks.append(("Tag::%s: mask %#x classifies every Tag::full value (& %#x) as full" % (fn, C, FM), (FM & C) == 0, "FULLMASK&C=%#x" % (FM & C)))
+    b = F.bodies.get("control::tag::Tag::special_is_empty")
+    mt = _mask_test(b) if b is not None else None
+    if mt is None:
+        R.inst("Tag::special_is_empty|shape", "predicate is not of the form (x & C) != 0: not judged", "exempt", False)
+    else:
+        C, op = mt
+        n += 1
+        truth = (lambda v: ((v & C) != 0) if op == "Ne" else ((v & C) == 0))
+        checks.append(("Tag::special_is_empty distinguishes EMPTY (true) from DELETED (false)", truth(E_) and not truth(D_), "mask %#x op %s" % (C, op)))
+    if FM is not None:
+        n += 1
+        checks.append(("Tag::full keeps 7 bits", FM == 0x7f, "mask %#x" % FM))
+        if shift is not None:
+            bits = 64
+            checks.append(("Tag::full takes the TOP 7 bits of the (usize-truncated) hash", shift in (64 - 7, 32 - 7), "shift %d" % shift))
+    for name, ok, detail in checks:
+        if ok:
+            R.inst(name, "%s (%s)" % (name, detail), "ok", True)
+        else:
+            R.violation("tag|" + name.split(":")[0], anchor, "control-byte encoding relation violated: %s (%s): FULL / EMPTY / DELETED bytes are mis-classified, so probes stop at the wrong place, "
+                        "iteration visits non-elements or capacity accounting drifts" % (name, detail))
+    R.floor("tag predicates judged", n, 4)
+    return R
+
+
+# --------------------------------------------------------------------- R-BITMASK-DEFS
+
+def r_bitmask_defs(F, V):
+    """Definitions in control/bitmask.rs that every group scan relies on: the bit iterator removes exactly the bit it yields
+    (progress, each set bit once), remove_lowest_bit is x & (x - 1), invert flips exactly the BITMASK_MASK bits, and the
+    bit -> index conversions divide by BITMASK_STRIDE."""
+    R = Result("R-BITMASK-DEFS", F.cfg)
+    n = 0
+    consts = {}
+    for p, v in F.consts.items():
+        for name in ("BITMASK_STRIDE", "BITMASK_MASK"):
+            if p.endswith(name):
+                consts[name] = int(str(v["val"]), 0)
+    if len(consts) != 2:
+        R.undec("BITMASK_STRIDE / BITMASK_MASK not found")
+        return R
+    # (a) the iterator
+    nb = F.bodies.get("control::bitmask::<BitMaskIter as Iterator>::next")
+    if nb is None:
+        R.undec("BitMaskIter::next not found")
+    else:
+        n += 1
+        key = "BitMaskIter::next|yield-then-remove"
+        low = [(i, t) for i, t in nb.calls() if (callee_path(t) or "").endswith("BitMask::lowest_set_bit")]
+        rem = [(i, t) for i, t in nb.calls() if (callee_path(t) or "").endswith("BitMask::remove_lowest_bit")]
+        probs = []
+        if not low or not rem:
+            probs.append("does not pair lowest_set_bit with remove_lowest_bit")
+        else:
+            for i, t in low + rem:
+                r, path = operand_deep_root(nb, t["args"][0])
+                if r != 1:
+                    probs.append("%s is not applied to the iterator's own mask" % (callee_path(t) or "").split("::")[-1])
+            stores = []
+            for i, k, s in nb.stmts():
+                if s["k"] == "assign" and any(e["k"] == "deref" for e in s["p"].get("proj", [])) and nb.root_of_place(s["p"])[0] == 1:
+                    if s["rv"]["k"] == "use" and s["rv"]["op"]["k"] in ("copy", "move"):
+                        for og in nb.origins(s["rv"]["op"]):
+                            if og[0] == "call" and (callee_path(og[2]) or "").endswith("BitMask::remove_lowest_bit"):
+                                stores.append(i)
+            if not stores:
+                probs.append("the result of remove_lowest_bit is not stored back into the iterator")
+            else:
+                # every return that yields Some is preceded by the store
+                for i, k, s in nb.stmts():
+                    if s["k"] == "assign" and s["p"]["l"] == 0 and s["rv"]["k"] == "aggregate" and s["rv"].get("variant") == "Some":
+                        if not any(nb.dominates(st, i) or st == i for st in stores):
+                            probs.append("a bit index is yielded on a path that did not remove it from the mask: the same bit is yielded again")
+        if probs:
+            R.violation(key, nb, "BitMaskIter::next: " + "; ".join(sorted(set(probs))))
+            R.inst(key, "; ".join(sorted(set(probs))), "violation", True, where(nb))
+        else:
+            R.inst(key, "yields lowest_set_bit(self.0) and stores remove_lowest_bit(self.0) before returning Some", "ok", True, where(nb))
+    # (b) remove_lowest_bit = x & (x - 1)
+    rb = F.bodies.get("control::bitmask::BitMask::remove_lowest_bit")
+    if rb is not None:
+        n += 1
+        key = "BitMask::remove_lowest_bit|x&(x-1)"
+        ok = False
+        for i, k, s in rb.stmts():
+            if s["k"] == "assign" and s["rv"]["k"] == "binop" and s["rv"]["op"] == "BitAnd":
+                ka, kb = expr_key(rb, s["rv"]["a"]), expr_key(rb, s["rv"]["b"])
+                for x, y in ((ka, kb), (kb, ka)):
+                    if y in ("Sub(%s,c:1:u16)" % x, "Sub(%s,c:1:u64)" % x, "Sub(%s,c:1:u32)" % x, "Sub(%s,c:1:u8)" % x) or (y.startswith("Sub(%s,c:1:" % x)):
+                        ok = True
+        if ok:
+            R.inst(key, "x & (x - 1)", "ok", True, where(rb))
+        else:
+            R.violation(key, rb, "remove_lowest_bit is not `x & (x - 1)` of one and the same mask: the bit iterator would drop or repeat bits (buckets skipped or visited twice)")
+            R.inst(key, "not x & (x - 1)", "violation", True, where(rb))
+    # (c) invert = x ^ BITMASK_MASK
+    ib = F.bodies.get("control::bitmask::BitMask::invert")
+    if ib is not None:
+        n += 1
+        key = "BitMask::invert|xor-mask"
+        ok = False
+        for i, k, s in ib.stmts():
+            if s["k"] == "assign" and s["rv"]["k"] == "binop" and s["rv"]["op"] == "BitXor":
+                cs = [o for o in (s["rv"]["a"], s["rv"]["b"]) if o["k"] == "const" and o.get("val") is not None]
+                try:
+                    if cs and int(str(cs[0]["val"]), 0) == consts["BITMASK_MASK"]:
+                        ok = True
+                except ValueError:
+                    pass
+        bits_ = None
+        for p_, v_ in F.consts.items():
+            if p_.endswith("BITMASK_MASK"):
+                bits_ = v_.get("bits")
+        for i, k, s in ib.stmts():
+            if s["k"] == "assign" and s["rv"]["k"] == "unop" and s["rv"]["op"] == "Not" and bits_ and consts["BITMASK_MASK"] == (1 << bits_) - 1:
+                ok = True   # `!x` flips every bit of the word, which is exactly the mask when the mask is all ones
+        if ok:
+            R.inst(key, "x ^ BITMASK_MASK (%#x)" % consts["BITMASK_MASK"], "ok", True, where(ib))
+        else:
+            R.violation(key, ib, "BitMask::invert does not flip exactly the BITMASK_MASK bits (%#x): match_full = !match_empty_or_deleted would report bits that belong to no bucket or miss buckets" % consts["BITMASK_MASK"])
+            R.inst(key, "invert mask wrong", "violation", True, where(ib))
+    # (d) bit -> index conversions divide by the stride, and use the matching count-zeros primitive
+    for fn, prim in (("trailing_zeros", "trailing_zeros"), ("nonzero_trailing_zeros", "trailing_zeros"), ("leading_zeros", "leading_zeros")):
+        b = F.bodies.get("control::bitmask::BitMask::" + fn)
+        if b is None:
+            continue
+        n += 1
+        key = "BitMask::%s|stride" % fn
+        divs = [s for i, k, s in b.stmts() if s["k"] == "assign" and s["rv"]["k"] == "binop" and s["rv"]["op"] == "Div"]
+        bad = [s for s in divs if not (s["rv"]["b"]["k"] == "const" and s["rv"]["b"].get("val") == consts["BITMASK_STRIDE"])]
+        # the arm that is live (not behind a constant-false cfg!) uses the primitive named like the function
+        live = set(b.normal)
+        for i in b.normal:
+            t = b.term(i)
+            if t["k"] == "switch" and t["discr"]["k"] in ("copy", "move"):
+                d = b.single_def(t["discr"]["p"]["l"])
+                if d and d[0] == "stmt" and d[3]["rv"]["k"] == "use" and d[3]["rv"]["op"]["k"] == "const" and d[3]["rv"]["op"].get("val") in (0, False):
+                    dead = [x for v, x in t["targets"] if v != 0]
+                    if 0 not in [v for v, _ in t["targets"]]:
+                        dead = [t["otherwise"]] if False else dead
+                    zero_t = [x for v, x in t["targets"] if v == 0]
+                    for dx in b.nsucc[i]:
+                        if dx not in zero_t:
+                            live -= b.reachable_from(dx, tuple(zero_t)) - b.reachable_from(zero_t[0]) if zero_t else set()
+        prims = [(callee_path(t) or "") for i, t in b.calls() if i in live and ("leading_zeros" in (callee_path(t) or "") or "trailing_zeros" in (callee_path(t) or ""))]
+        probs = []
+        if not divs or bad:
+            probs.append("the bit position is not divided by BITMASK_STRIDE (%d)" % consts["BITMASK_STRIDE"])
+        if not prims or not all(p_.endswith(prim) for p_ in prims):
+            probs.append("the live arm counts %s instead of %s" % ([p_.split("::")[-1] for p_ in prims], prim))
+        if probs:
+            R.violation(key, b, "BitMask::%s: %s: bit positions no longer map to bucket indices within the group" % (fn, "; ".join(probs)))
+            R.inst(key, "; ".join(probs), "violation", True, where(b))
+        else:
+            R.inst(key, "%s / BITMASK_STRIDE" % prim, "ok", True, where(b))
+    R.floor("bitmask definitions judged", n, 5)
+    return R
